@@ -70,8 +70,12 @@ class TakeLast(Blockwise):
 
     @staticmethod
     def operation(a, skipna=True):
+        if a.ndim == 1 and a.empty:
+            # nothing to carry over (also with skipna=False, where the empty
+            # tail would otherwise travel on as an empty Series)
+            return None
         if skipna:
-            if a.ndim == 1 and (a.empty or a.isna().all()):
+            if a.ndim == 1 and a.isna().all():
                 return None
             a = a.ffill()
         return a.tail(n=1).squeeze()
